@@ -69,7 +69,7 @@ func (r Int64) MAX(a, b Int64) Scalar {
 }
 /* -------------------------------------------------------------------------- */
 func (c Int64) ABS(a Int64) Scalar {
-  if c.Sign() == -1 {
+  if a.Sign() == -1 {
     c.NEG(a)
   } else {
     c.SET(a)
